@@ -72,21 +72,30 @@ def on_plane(ctx):
             ctx.prove("returned-iff-within-tolerance-of-the-plane", band or (bool(on) == (v in found)), vertex=v.index)
 
 
-@proof("C18", "bounded/finders-on-meshes", cases=["boxes", "cylinder"], level="B", samples=25,
+@proof("C18", "bounded/finders-on-meshes", cases=["boxes", "cylinder", "boxes; finder outlives a re-assembly", "cylinder; finder outlives a re-assembly"], level="B", samples=25,
        functions=[FD + "geometric:GeometricFinder.find_on_plane", FD + "geometric:GeometricFinder.find_in_sphere"],
        note="bounded stand-in: meshes of random boxes/cylinders, query planes through three mesh vertices with non-unit normals, spheres of random radius")
 def finders_bounded(ctx):
     rng = ctx.rng
     mesh = Mesh()
     scale = 10 ** rng.uniform(-3, 1)
-    if ctx.case == "boxes":
+    if ctx.case.startswith("boxes"):
         for c in [(0, 0, 0), (1, 0, 0), (0, 1, 0)][: rng.randint(1, 3)]:
             mesh.add(cb.Box(np.array(c) * scale, (np.array(c) + 1) * scale))
     else:
         mesh.add(cb.Cylinder([0, 0, 0], [0, 0, 2 * scale], [scale, 0, 0]))
     mesh.assemble(skip_edges=True)
-    P = np.array([np.asarray(v.position, dtype=float) for v in mesh.vertices])
     finder = GeometricFinder(mesh)
+    if "re-assembly" in ctx.case:
+        # the finder answers about the mesh as it is when asked: a vertex is moved and the mesh re-assembled in between
+        finder.find_in_sphere(np.asarray(mesh.vertices[0].position, dtype=float), scale)
+        mesh.vertices[rng.randrange(len(mesh.vertices))].translate(np.array([0.11, -0.07, 0.13]) * scale)
+        if rng.random() < 0.5:
+            mesh.backport()
+        else:
+            mesh.clear()
+            mesh.assemble(skip_edges=True)
+    P = np.array([np.asarray(v.position, dtype=float) for v in mesh.vertices])
     i, j, k = rng.sample(range(len(P)), 3)
     n = np.cross(P[j] - P[i], P[k] - P[i])
     if np.linalg.norm(n) > 1e-9 * scale * scale:
@@ -98,7 +107,9 @@ def finders_bounded(ctx):
         ctx.prove("plane-finder-exact", found - unsure == want - unsure, found=sorted(found), want=sorted(want))
     c = P[rng.randrange(len(P))] + np.array([rng.uniform(-1, 1) for _ in range(3)]) * scale * 0.3
     r = rng.uniform(0.1, 1.5) * scale
-    found = {v.index for v in finder.find_in_sphere(c, r)}
+    got = finder.find_in_sphere(c, r)
+    ctx.prove("found-vertices-are-vertices-of-the-mesh", all(any(v is w for w in mesh.vertices) for v in got))
+    found = {v.index for v in got}
     dd = np.linalg.norm(P - c, axis=1)
     ctx.prove("sphere-finder-exact", found == {q for q in range(len(P)) if dd[q] < r})
 
